@@ -68,6 +68,7 @@ func c08Load(src string) c08Loaded {
 	case r := <-ch:
 		return r
 	case <-hangAfter(c08Timeout):
+		noteHang()
 		return c08Loaded{outcome: "TIMEOUT"}
 	}
 }
